@@ -80,6 +80,8 @@ def param_observe(cfg):
         return ("PTable" if shape == "n1" else "PTableAsColumn"), st.tolist()
     if np.all((col >= 0.0) & (col <= 1.0)):
         grid = np.allclose(col, np.arange(n) / n)
+        if not grid and n >= 3 and len(set(col.tolist())) == 1:
+            return "PUnset", st.tolist()          # n draws from the range that are all the same number are no sample of that range
         return ("PRangeGrid" if grid else "PRangeUniform"), st.tolist()
     return "PUnset", st.tolist()
 
